@@ -7,7 +7,7 @@ RULE = 'every non-CONNECT packet as first packet, rejected authentication (with 
 
 
 def scripts_for(seed, tier):
-    sc = F.protocol(seed, tier)
+    sc = B.multi(F.protocol, seed, tier, 3)
     return sc
 
 
